@@ -1,6 +1,6 @@
 //! C13: easing curves.
 
-use crate::desc::*;
+use mv_core::desc::*;
 use mina::prelude::*;
 use mina::EasingFunction;
 use mv_engine::{Run, Tier};
